@@ -75,7 +75,13 @@ def run(spec, tier, seed, replay=None):
             extra = list(drv.get("args", [])) + (list(drv.get("thorough_args", [])) if tier == "thorough" else [])
             rc, summ, raw = V.run_harness(profile, drv["driver"], case_dir, tier, seed, extra, timeout=drv.get("timeout", 1500), env=drv.get("env"))
             if summ is None:
-                broken_corr.append({"kind": "harness-run", "driver": drv["driver"], "profile": profile, "rc": rc, "excerpt": raw[-2000:]})
+                if rc != 124 and "[last case]" in raw:
+                    # the driver died (abort / signal) while exercising the implementation: the case it was running is the failing input
+                    impl_violations.append({"what": "%s driver (%s) died with status %s while running: %s" % (drv["driver"], profile, rc, raw.split("[last case] ", 1)[1][:1500]),
+                                            "observed": raw.split("[last case]")[0][-400:].strip() or "process killed by signal %s" % (-rc if rc < 0 else rc),
+                                            "expected": "the driver completes (it does on the unchanged tree)", "profile": profile, "driver": drv["driver"]})
+                else:
+                    broken_corr.append({"kind": "harness-run", "driver": drv["driver"], "profile": profile, "rc": rc, "excerpt": raw[-2000:]})
                 continue
             summaries.append(summ)
             evaluations += summ.get("evaluations", 0)
